@@ -166,6 +166,20 @@ func GenGroups(r *core.Rng, job string) []TG {
 				b["sepa"], b["sepb"] = "web", "prod"
 				tg.Targets = append(tg.Targets, a, b)
 			}
+			if r.Intn(10) == 0 { // two DIFFERENT targets with the same URL and more than 1 KiB of labels, differing in a label that sorts first (or last)
+				blob := strings.Repeat("doc-"+fmt.Sprint(r.Intn(3))+"-", 150+r.Intn(100))
+				a, b := map[string]string{}, map[string]string{}
+				for k, v := range ls {
+					a[k], b[k] = v, v
+				}
+				big, small := "zz_owner_doc", "aa_zone"
+				if r.Intn(3) == 0 {
+					big, small = "aa_owner_doc", "zz_zone"
+				}
+				a[big], b[big] = blob, blob
+				a[small], b[small] = "zone-a", "zone-b"
+				tg.Targets = append(tg.Targets, a, b)
+			}
 			if r.Intn(6) == 0 { // exact duplicate inside the group
 				dup := map[string]string{}
 				for k, v := range ls {
